@@ -195,6 +195,48 @@ def encodeString (st : EncState) (win : List Byte) (src : Option (List Byte)) : 
         .ok ⟨{ st with done := off + take }, win.take off ++ bytes.take take ++ win.drop (off + take), take⟩
       else .oob
 
+/-! ### message deletion (`base->iov_base == NULL`, `base->iov_len` = number of messages) -/
+
+/-- index behind the last delimiter `d` in `win[0 .. pos)`; 0 if there is none -/
+def backToDelim (win : List Byte) (d : Byte) : Nat → Nat
+  | 0 => 0
+  | p + 1 => if win[p]? = some d then p + 1 else backToDelim win d p
+
+/-- remove `k` finished messages in front of `pos` (0 or an index behind a delimiter) -/
+def dropFrames (win : List Byte) (d : Byte) : Nat → Nat → Option Nat
+  | 0, pos => some pos
+  | k + 1, pos => if pos = 0 then none else dropFrames win d k (backToDelim win d (pos - 1))
+
+/-- message deletion of `mpt_encode_cobs` (all four COBS encoders end up here): a message in progress
+    (`_ctx != 0`) counts as the first one and is cut back to the end of the last finished frame -/
+def encodeCobsDel (st : EncState) (win : List Byte) (k : Nat) : CRes EncOut :=
+  let code := st.scratch % 256
+  if st.done > win.length then .err .BadArgument else
+  if code > win.length - st.done then .err .BadArgument else
+  if k = 0 then .err .BadValue else
+  let pos0 := if st.ctx ≠ 0 then backToDelim win 0 st.done else st.done
+  match dropFrames win 0 (if st.ctx ≠ 0 then k - 1 else k) pos0 with
+  | none => .err .BadValue
+  | some pos => .ok ⟨{ ctx := 0, done := pos, scratch := 0 }, win, pos⟩
+
+/-- one deletion step of `mpt_encode_string`: strip the end byte of a finished message, then go back
+    behind the previous delimiter -/
+def stringDelStep (win : List Byte) (d : Byte) (off : Nat) : Nat :=
+  backToDelim win d (if win[off - 1]? = some d then off - 1 else off)
+
+def stringDel (win : List Byte) (d : Byte) : Nat → Nat → Option Nat
+  | 0, off => some off
+  | k + 1, off => if off = 0 then none else stringDel win d k (stringDelStep win d off)
+
+/-- message deletion of `mpt_encode_string` (zero delimiter, no separator pattern) -/
+def encodeStringDel (st : EncState) (win : List Byte) (k : Nat) : CRes EncOut :=
+  if st.scratch ≠ 0 ∨ st.ctx ≠ 0 then .unmodelled else
+  if st.done > win.length then .err .BadArgument else
+  if k = 0 then .err .BadArgument else
+  match stringDel win 0 k st.done with
+  | none => .err .MissingData
+  | some off => .ok ⟨{ st with done := off }, win, off⟩
+
 /-- the five framings -/
 inductive Codec where
   | cobs (v : Variant)
@@ -250,6 +292,23 @@ def encodeSched (c : Codec) (fill : Byte) : Nat → EncState → List Byte → L
     | .unmodelled => .unmodelled
 
 /-! ### `mpt_array_push` -/
+
+/-- deletion through the encoder selected for the framing -/
+def encodeDel (c : Codec) (st : EncState) (win : List Byte) (k : Nat) : CRes EncOut :=
+  match c with
+  | .cobs _ => encodeCobsDel st win k
+  | .command => encodeStringDel st win k
+
+/-- `cobs->iov_base == NULL` with `iov_len == 0` (uninitialized target): nothing is stored -/
+def encodeNull (c : Codec) (st : EncState) (src : Option (List Byte)) : CRes EncOut :=
+  match c with
+  | .cobs _ => if st.scratch % 256 ≠ 0 ∨ st.done ≠ 0 then .err .BadArgument else .err .MissingBuffer
+  | .command =>
+    if st.scratch ≠ 0 ∨ st.ctx ≠ 0 then .unmodelled
+    else if st.done > 0 then .err .BadArgument
+    else match src with
+      | none => .err .MissingBuffer
+      | some bytes => if bytes.length = 0 then .err .BadArgument else .err .MissingBuffer
 
 /-- `_mpt_buffer_alloc`: usable size for a request of `n` bytes (128-byte parts, 64-byte header) -/
 def allocSize (n : Nat) : Nat := ((n + 64 - 1) / 128 + 1) * 128 - 64
@@ -314,6 +373,22 @@ def arrayPush (c : Codec) (fill : Byte) (a : EncArray) (data : Option (List Byte
     | .err e => .err e
     | .oob => .oob
     | .unmodelled => .unmodelled
+  | .err e => .err e
+  | .oob => .oob
+  | .unmodelled => .unmodelled
+
+/-- `mpt_array_push(arr, k, NULL)`: delete `k` messages (the message in progress counts as the first) -/
+def arrayDel (c : Codec) (fill : Byte) (a : EncArray) (k : Nat) : CRes (EncArray × Int) :=
+  match arrayStart fill a (if k > 64 then k else 64) with
+  | .ok (buf, used) =>
+    if used < a.st.done + a.st.scratch then .ok ({ a with buf := some buf, used := used }, Err.BadArgument.code)
+    else
+      let off := used - (a.st.done + a.st.scratch)
+      match encodeDel c a.st (buf.drop off) k with
+      | .ok o => .ok ({ st := o.st, buf := some buf, used := off + o.st.done + o.st.scratch }, (o.ret : Int))
+      | .err e => .ok ({ a with buf := some buf, used := used }, e.code)
+      | .oob => .oob
+      | .unmodelled => .unmodelled
   | .err e => .err e
   | .oob => .oob
   | .unmodelled => .unmodelled
